@@ -71,31 +71,39 @@ def model_witness(ctx):
 def run(ctx):
     ctx.stage_xlate(required_assertions=ASSERTIONS)
     ctx.stage_prove(THEOREMS)
-    if not ctx.stage_build():
+    ctx.stage_build()
+    built = {o["name"]: o["ok"] for o in ctx.obligations if o["kind"] == "build"}
+    if not built.get("build:harness(-tags verif, overlay)"):
         return
+    # If the Lean side no longer builds (e.g. a regenerated fact broke a theorem) the tie is already reported as
+    # broken; the real code is still run so that the monitor can supply a concrete failing input.
+    model = bool(built.get("build:driver"))
     quick = ctx.tier == "quick"
 
     # 1. the two Unicode tables of the model against the toolchain's unicode package, all 0x110000 code points
-    ctx.correspond("validate", 1, name="validate-unicode-tables", args={"mode": "tables"}, sample_n=1, nontrivial=lambda *a: False)
-    ctx.cov["distribution"]["unicode_code_points_compared"] = 2 * 0x110000
+    if model:
+        ctx.correspond("validate", 1, name="validate-unicode-tables", args={"mode": "tables"}, sample_n=1, nontrivial=lambda *a: False)
+        ctx.cov["distribution"]["unicode_code_points_compared"] = 2 * 0x110000
 
-    # 2. the decoder on systematic inputs (all 1- and 2-byte strings; structured 3- and 4-byte strings)
-    n_dec = int(tool("c14-cases", "decode", ctx.tier))
-    ctx.correspond("validate", n_dec, name="validate-decoder", args={"mode": "decode"}, nontrivial=nontrivial_dec, sample_n=0)
+        # 2. the decoder on systematic inputs (all 1- and 2-byte strings; structured 3- and 4-byte strings)
+        n_dec = int(tool("c14-cases", "decode", ctx.tier))
+        ctx.correspond("validate", n_dec, name="validate-decoder", args={"mode": "decode"}, nontrivial=nontrivial_dec, sample_n=0)
 
     # 3. complete enumeration of short strings over the 16-symbol alphabet
     elen = 3 if quick else 4
     n_enum = int(tool("c14-cases", "enum", str(elen)))
-    ctx.correspond("validate", n_enum, name="validate-enum", args={"mode": "enum", "len": str(elen)}, nontrivial=nontrivial, sample_n=1)
+    ctx.correspond("validate", n_enum, name="validate-enum", args={"mode": "enum", "len": str(elen)}, nontrivial=nontrivial, sample_n=1, model=model)
     ctx.cov["distribution"]["enum_max_symbols"] = elen
-    if not quick:
+    if not quick and model:
         ctx.exhaustive = True
         ctx.cov["exhaustive_scope"] = ("stream validate-enum only: every string of at most %d symbols over the 16-symbol alphabet "
                                        "{a, SP, TAB, CR, NUL, $, <, U+00A0, U+0085, U+3000, U+200B, 80, A0, C2, E3, FF} (69,905 strings); "
                                        "the Unicode table comparison is also complete (all 1,114,112 code points); the other streams are samples" % elen)
 
     # 4. boundary-biased random queries and limits
-    ctx.correspond("validate", 4000 if quick else 100000, nontrivial=nontrivial, sample_n=4)
+    ctx.correspond("validate", 4000 if quick else 100000, nontrivial=nontrivial, sample_n=4, model=model)
+    if not model:
+        return
 
     # 5. the witness of Wtf.C14.idem_fails, taken from the model and confirmed on the real code
     w = model_witness(ctx)
